@@ -22,6 +22,19 @@ MIN_FNS = ("std::cmp::min", "core::cmp::min", "std::cmp::Ord::min")
 MAX_FNS = ("std::cmp::max", "core::cmp::max", "std::cmp::Ord::max")
 
 
+def _const_array_len(v):
+    """`CONST_ARRAY.len()`: the number of elements of a constant array"""
+    if v[0] == "call" and v[1] and v[1].endswith("::len") and v[2]:
+        a = v[2][0]
+        while a[0] in ("cast",):
+            a = a[2]
+        if a[0] == "const" and isinstance(a[1], dict) and isinstance(a[1].get("fields"), dict):
+            keys = list(a[1]["fields"].keys())
+            if keys and all(k.isdigit() for k in keys) and sorted(int(k) for k in keys) == list(range(len(keys))) and ("[" in str(v[2][0][1]) if v[2][0][0] == "cast" else True):
+                return len(keys)
+    return None
+
+
 def _is(name, fns):
     return bool(name) and any(name == f or name.startswith(f + "::<") for f in fns)
 
@@ -33,6 +46,7 @@ class Numeric:
         self._vals = {}
         self.ignore_write = None     # (block, stmt index): evaluate facts just before this assignment
         self.use_block = None        # the block at which the current question is asked (lengths are unified relative to it)
+        self._hull_depth = 0
 
     # ------------------------------------------------------------------ types
     def ty_of(self, v):
@@ -63,6 +77,9 @@ class Numeric:
             return tr
         if v[0] == "call" and v[1]:
             n = v[1]
+            ck = _const_array_len(v)
+            if ck is not None:
+                return (ck, ck)
             if n.endswith("::len") or n.endswith("::count") or n.endswith("::capacity"):
                 return (0, ISIZE_MAX)
             if (n.endswith("::unwrap") or n.endswith("::expect")) and v[2]:
@@ -117,8 +134,60 @@ class Numeric:
                 return (0, (1 << bits) - 1)
             return tr
         if v[0] == "place":
+            hull = self._param_hull(v) if not v[1][1] else None
+            if hull is not None:
+                return hull
             return ty_range(self.ty_of(v) or "")
         return None
+
+    def _param_hull(self, v):
+        """a parameter of a PRIVATE function that is never reassigned: when every call site passes a constant, the parameter is within
+        the hull of those constants (`fn fixed_header(position: usize)` called with 0, 1, 2, 3)"""
+        l = v[1][0]
+        fn = self.fn
+        if not (1 <= l <= fn.nargs) or not (getattr(fn, "vis", "") or "").startswith("Restricted"):
+            return None
+        if any(pk[0] == l for _, _, pk, _ in self.du.writes):
+            return None
+        from . import facts as _facts
+        from .callgraph import callee_name
+        from .dataflow import du_of
+        F = _facts.CURRENT
+        if F is None:
+            return None
+        sites = F.__dict__.setdefault("_call_sites", None)
+        if sites is None:
+            sites = {}
+            for g in F.fns.values():
+                for bid, t in g.calls():
+                    c = callee_name(t)
+                    if c in F.fns:
+                        sites.setdefault(c, []).append((g, t))
+            F.__dict__["_call_sites"] = sites
+        cs = sites.get(fn.def_, [])
+        if not cs:
+            return None
+        vals = []
+        for g, t in cs:
+            if l - 1 >= len(t["args"]):
+                return None
+            av = du_of(g).val_operand(t["args"][l - 1])
+            k = const_int(strip_casts(av))
+            if k is not None:
+                vals.append(k)
+                continue
+            # not a literal: what the caller knows about it at the call (e.g. the item of `0..TABLE.len()`)
+            if g is fn or self._hull_depth > 1:
+                return None
+            from .guards import guards_of
+            gn = numeric_of(g, du_of(g), guards_of(g))
+            gn._hull_depth = self._hull_depth + 1
+            bid = next((b for b, tt in g.calls() if tt is t), None)
+            lo, hi = (gn.lower_bound(av, bid), gn.upper_bound(av, bid)) if bid is not None else (None, None)
+            if lo is None or hi is None:
+                return None
+            vals += [lo, hi]
+        return (min(vals), max(vals))
 
     # ---------------------------------------------------------- linear terms
     def lin(self, v, depth=0):
@@ -140,6 +209,9 @@ class Numeric:
             if op == "Sub" and const_int(b) is not None:
                 base, off = self.lin(a, depth + 1)
                 return (base, off - const_int(b))
+        ck = _const_array_len(v)
+        if ck is not None:
+            return (ZERO, ck)
         L = len_of(self.du, v)
         if L is not None:
             place = self.du.canon(L)
@@ -400,6 +472,11 @@ class Numeric:
                     ok = False
             if ok:
                 return True
+        d = self._dist(y, x, block)
+        return d is not None and d <= c
+
+    def _dist(self, y, x, block):
+        """tightest c with x - y <= c derivable at `block` (None: unbounded / contradictory facts)"""
         cons = self.constraints_at(block)
         nodes = {x, y, ZERO}
         for p, q, _ in cons:
@@ -421,8 +498,8 @@ class Numeric:
             if not changed:
                 break
         else:
-            return False        # negative cycle: contradictory facts (dead code) - do not conclude anything
-        return dist[x] <= c
+            return None        # negative cycle: contradictory facts (dead code) - do not conclude anything
+        return dist[x] if dist[x] != INF else None
 
     def prove_le_len(self, v, place, c, block):
         """v - LEN(place) <= c"""
@@ -440,9 +517,9 @@ class Numeric:
         if base == ZERO:
             return off
         # binary search is overkill: test a few useful thresholds
-        for cand in (ISIZE_MAX, (1 << 32), 255):
-            if (hi is None or cand + off < hi) and self._prove(base, ZERO, cand, block):
-                hi = cand + off
+        d = self._dist(ZERO, base, block)            # base - 0 <= d
+        if d is not None and (hi is None or d + off < hi):
+            hi = d + off
         return hi
 
     def lower_bound(self, v, block):
@@ -452,10 +529,9 @@ class Numeric:
         base, off = self.lin(v)
         if base == ZERO:
             return off
-        for cand in (1, 0):
-            if (lo is None or cand + off > lo) and self._prove(ZERO, base, -cand, block):
-                lo = cand + off
-                break
+        d = self._dist(base, ZERO, block)            # 0 - base <= d, i.e. base >= -d
+        if d is not None and (lo is None or -d + off > lo):
+            lo = -d + off
         return lo
 
 
